@@ -1,31 +1,45 @@
 """C12 — arrays, maps and sets behind handles behave like their plain counterparts.
 
-Formal side: coq/props/C12.v (model Collections.v of utils/state.rs mutate_* / put_handle /
-remove_handle_recursive and of every native collection command; specification CollectionsSpec.v).
-Correspondence: histories of collection commands are run (a) by the extracted model — model M for
-the native commands, the S-level definitions for the nine script-implemented commands, with
-`array_concat` in its as-is form (finding F6) — and (b) by the real SDK in one persistent Context
-per history (harness c12).  After every op the outputs are compared, at `dump` ops every
-collection allocated so far is re-read through the public commands and compared.  Random handle
-names are replaced on both sides by the step that allocated them; map/set listings are sorted.
+Formal side: coq/props/C12.v.  Model M (theories/Collections.v): utils/state.rs put_handle / mutate_list /
+mutate_map / mutate_set / remove_handle_recursive and every native collection command, one function per Rust
+function, Rust panics and recursion fuel as explicit outcomes.  Specification S (CollectionsSpec.v): what a
+command does to the collections (keep / update one / allocate a fresh handle / release) with plain list,
+finite-map and finite-set operations.  Proofs (CollectionsProof.v): M = S for every native command on every
+state and argument list, mismatch, release, distinctness, verbatim storage, and the four loop-free script
+commands translated by hand (CollectionsScripts.v).  coq/generated/GenCollections.v (lib/gen/c12_gen.py) is the
+table of names, aliases, argument counts and helper calls read from the source; C12_tables ties it to the model.
+
+Correspondence: histories of collection commands are run (a) by the extracted model — M for the native
+commands, the hand translation for the loop-free scripts, array_contains and set_from_array, the S-level
+definitions for the other three scripts with for-in loops, `array_concat` in its as-is form (finding F6) — and (b) by the real SDK in one persistent
+Context per history (harness c12: one-line scripts, arguments passed through variables).  After every op the
+outputs are compared; at `dump` ops every collection allocated so far is re-read through the public commands
+(is_array/array_length/array_get, is_map/map_keys/map_get, is_set/set_to_array) and compared together with the
+size of the handle table.  Random handle names are replaced on both sides by the step that allocated them;
+map / set listings are sorted.
 
 Known findings tolerated (exactly these classes):
-  F6  array_concat after an earlier array_concat failed during validation resumes the validation
-      loop where the failed call stopped (model: CollectionsSpec.concat_asis; flagged `~` when it
-      differs from the specification).  The implementation must still agree with concat_asis.
-  F7  array_join leaves a trailing separator when the separator, re-serialised for
-      `if not is_empty <sep>`, does not parse back to itself (contains # $ % or white space other
-      than the space character): the output may be <joined> or <joined><sep>.
+  F6  array_concat, called after an earlier array_concat failed during validation, resumes the validation
+      loop where the failed call stopped (CollectionsSpec.concat_asis; the model marks the step `~` when that
+      differs from the specification; theorem C12_F6_confined: no difference unless an earlier call failed).
+      The implementation must still agree with concat_asis.
+  F7  array_join leaves a trailing separator when the separator, re-serialised for `if not is_empty <sep>`,
+      does not parse back to itself (it contains # $ % or white space other than the space character): the
+      output may be <joined> or <joined><sep>.  Arguments of script commands that reach `if not <command> ${arg}`
+      and contain # $ % " \ = or such white space are outside the compared domain (C09's finding F7): only
+      "an error or false" is required and the rest of that history is not compared.
 """
-import itertools
 import os
 import vlib
 from vlib import enc_str, dec_str, enc_list, dec_list
 
-THEOREMS = ["C12_tables", "C12_short_args", "C12_parse_dec", "C12_verbatim_array_dec", "C12_F6_confined", "C12_refines", "C12_refines_run", "C12_nopanic", "C12_mismatch", "C12_mismatch_native",
-            "C12_mismatch_release", "C12_mismatch_concat", "C12_release_total", "C12_release",
-            "C12_release_cyclic", "C12_distinct", "C12_frame", "C12_verbatim_array", "C12_verbatim_map",
-            "C12_verbatim_set", "C12_keys_perm", "C12_members_perm", "C12_oracles_exist", "C12_F6_witness"]
+THEOREMS = ["C12_tables", "C12_short_args", "C12_refines", "C12_refines_run", "C12_refines_script",
+            "C12_refines_array_contains", "C12_refines_set_from_array", "C12_no_empty_handle", "C12_refines_run_proved", "C12_nopanic", "C12_mismatch", "C12_mismatch_native", "C12_mismatch_release",
+            "C12_mismatch_concat", "C12_release_total", "C12_release", "C12_release_cyclic", "C12_distinct", "C12_frame",
+            "C12_verbatim_array", "C12_verbatim_map", "C12_verbatim_set", "C12_parse_dec", "C12_verbatim_array_dec",
+            "C12_keys_perm", "C12_members_perm", "C12_array_contains_least", "C12_array_contains_none",
+            "C12_map_contains_value_spec", "C12_set_from_array_spec", "C12_oracles_exist", "C12_F6_witness",
+            "C12_F6_confined"]
 
 ALLOC = {"array", "range", "map", "set_new", "map_keys", "set_to_array", "array_concat", "set_from_array", "raw"}
 KIND_OF = {"array": "A", "range": "A", "map": "M", "set_new": "S", "map_keys": "A", "set_to_array": "A",
@@ -417,6 +431,7 @@ def confusion_ops(t):
 
 
 OWN_FILES = ["coq/theories/Collections.v", "coq/theories/CollectionsSpec.v", "coq/theories/CollectionsProof.v",
+             "coq/theories/CollectionsScripts.v", "coq/theories/CollectionsTables.v", "coq/generated/GenCollections.v",
              "coq/props/C12.v", "coq/extract/C12_extract.v"]
 
 
@@ -635,9 +650,10 @@ def run(ck):
             "status": stats,
             "samples": [[show_op(o) for o in hist[0][1]], [show_op(o) for o in hist[min(n_corpus + 5, len(hist) - 1)][1]],
                         [show_op(o) for o in hist[-1][1][:12]]],
-            "partial": "script-implemented commands (array_is_empty, array_contains, array_concat, array_join, map_contains_key, "
-                       "map_contains_value, map_is_empty, set_from_array, set_is_empty) have specification-level definitions only "
-                       "and are tied to the code by this run, not by a refinement proof",
+            "partial": "three script-implemented commands with for-in loops (array_concat, array_join, map_contains_value) have "
+                       "specification-level definitions only and are tied to the code by this run, not by a refinement proof; the "
+                       "four loop-free ones (array_is_empty, map_is_empty, set_is_empty, map_contains_key), array_contains and "
+                       "set_from_array are hand-translated compositions of the native models, proved against the specification",
         })
     else:
         ck.coverage.update({"evaluations": 0, "distinct_nontrivial": 0, "rule": "model did not build", "samples": []})
